@@ -17,21 +17,22 @@ Sc(kind, ord) == [kind |-> kind, ord |-> ord]
 Ok(s) == [r |-> "ok", out |-> s]
 Err == [r |-> "err", out |-> <<>>]
 Unspec == [r |-> "unspec", out |-> <<>>]
-\* which kinds have an order: numbers among numbers, strings among strings, arrays among arrays (element-wise)
+\* which kinds have an order: numbers among numbers, strings among strings, bools among bools (false before true),
+\* arrays among arrays (element-wise)
 \* ("arr": arrays of mutually comparable elements; "xarr": arrays holding incomparable elements, which compare only
 \* with an identical array — rank is then an identity; maps never compare)
-Orderable == {"int", "str", "arr"}
+Orderable == {"int", "str", "arr", "bool"}
 Cmpb(k1, r1, k2, r2) == k1 = k2 /\ (k1 \in Orderable \/ (k1 = "xarr" /\ r1 = r2))
 Comparable(a, b) == Cmpb(a.kind, a.ord, b.kind, b.ord)
 \* the partial order of values: -1, 0, 1, or 2 = not comparable.  Scalars of one orderable kind by rank; arrays member by
 \* member (an incomparable pair of members makes the arrays incomparable), then by length; maps never; mixed kinds never
 Sign(n) == IF n < 0 THEN -1 ELSE IF n > 0 THEN 1 ELSE 0
-ScalarCmp(a, b) == IF a.kind # b.kind \/ a.kind \notin {"int", "str"} THEN 2 ELSE Sign(a.ord - b.ord)
+ScalarCmp(a, b) == IF a.kind # b.kind \/ a.kind \notin {"int", "str", "bool"} THEN 2 ELSE Sign(a.ord - b.ord)
 RECURSIVE LexCmp(_, _)
 LexCmp(s, t) == IF s = <<>> /\ t = <<>> THEN 0 ELSE IF s = <<>> THEN -1 ELSE IF t = <<>> THEN 1
                 ELSE LET c == ScalarCmp(s[1], t[1]) IN IF c # 0 THEN c ELSE LexCmp(Tail(s), Tail(t))
 ElCmp(a, b) == IF a.kind = "arr" /\ b.kind = "arr" THEN LexCmp(a.items, b.items)
-               ELSE IF a.kind = b.kind /\ a.kind \in {"int", "str"} THEN Sign(a.ord - b.ord) ELSE 2
+               ELSE IF a.kind = b.kind /\ a.kind \in {"int", "str", "bool"} THEN Sign(a.ord - b.ord) ELSE 2
 KeyCmp(a, b) == ScalarCmp(a.key, b.key)
 \* stable insertion sort by a comparator (x goes before the first later element it is not greater than... kept stable:
 \* inserting from the right, x goes BEFORE elements it is <= to)
